@@ -223,7 +223,7 @@ class Gen:
                     ei = "-" if rng.random() < 0.6 else str(rng.randrange(16))
                     w &= et <= 4 or (et in (5, 6) and t == 11)
                     return "r.%d.%s.%d.%s" % (t, i, et, ei), w
-                if rng.random() < 0.05:
+                if rng.random() < 0.05 and t != 0:
                     return "r.%d.%s.0.%d" % (t, i, rng.randrange(16)), w and t >= 7
                 return "r.%d.%s" % (t, i), w
             t, i, w = self.reg_ref(list(X86_VALID) if rng.random() < 0.95 else [0, 1, 7, 8, 9, 10, 14, 15, 18, 24])
@@ -515,9 +515,9 @@ def gen_ops(rng, tier):
     for arch, comp in (("x64", False), ("x86", False), ("a64", False), ("x64", True), ("a64", True)):
         g.init(arch, comp)
         names, ids = hdr[arch]
-        g.misc_block(150 if quick else 3000)
+        g.misc_block(600 if quick else 6000)
         # every flag combination on operand and instruction text
-        per = (10, 6) if quick else (80, 60)
+        per = (40, 25) if quick else (300, 200)
         for f in all_flags:
             g.set_flags(f)
             g.op_block(per[0])
@@ -531,12 +531,12 @@ def gen_ops(rng, tier):
                 g.set_flags(f)
                 if rng.random() < 0.5:
                     g.add("logopts %d %d %d" % (rng.choice((0, 2, 4)), rng.choice((0, 30, 50)), rng.choice((0, 10, 30))))
-                g.emit_block(names, ids, (600 if first else 150) if quick else 1500)
+                g.emit_block(names, ids, (3000 if first else 500) if quick else 6000)
                 if first:
                     # the same references once the labels are bound: no dots any more
                     for l in (0, 1, 2):
                         g.add("bind %d" % l)
-                    g.emit_block(names, ids, 100 if quick else 500)
+                    g.emit_block(names, ids, 300 if quick else 2000)
                 first = False
     return g
 
